@@ -87,8 +87,8 @@ def run(rep, tier):
             lri = repo.lower(build, group=group, level="O0", inline_internal=True)
             rule_format(rep, ir.Module.load(lri.json))
         rule_loop_state(rep, m, group, build)
-    rep.floor("C19.D1", 25)
-    rep.floor("C19.D2", 15)
+    rep.floor("C19.D1", 18)      # about half of the call sites of today's tree: refactorings merge and split them
+    rep.floor("C19.D2", 10)
     rep.floor("C19.D3", 2)
 
 
@@ -323,6 +323,10 @@ def explore(rep, m, f, fail, group):
             if failed is not None:
                 c = checked[failed]
                 bad = (rv is None) or (rv == 0 if is_main else rv != 0)
+                if bad and rv is None and c.callee in IO_PRIMITIVES and t.ops and _returns_parameter(f, t.ops[0], bname, prev):
+                    # a shared worker that returns the error value its caller handed in: decided in the callers
+                    # (the wrappers are explored on the inlined view below as well)
+                    continue
                 own = fail.get(f.name)
                 if c.callee in IO_PRIMITIVES and not is_main and own:
                     bad = rv is None or rv not in own      # the wrapper's own failure value(s)
@@ -402,6 +406,21 @@ def explore(rep, m, f, fail, group):
             rep.instance("C19.D3", 1, {"tool": group, "function": f.name, "states": nstates})
 
 
+def _returns_parameter(f, v, bname, prev, depth=0):
+    """is the returned value, on the path that arrives from `prev`, a parameter of the function (through casts)?"""
+    if v in f.params:
+        return True
+    d = f.defs.get(v) if ir.is_local(v) else None
+    if d is None or depth > 6:
+        return False
+    if d.op in ("zext", "sext", "trunc"):
+        return _returns_parameter(f, d.ops[0], bname, prev, depth + 1)
+    if d.op == "phi":
+        vals = [x for x, p in d.d["inc"]]
+        return any(_returns_parameter(f, x, bname, prev, depth + 1) for x in vals)
+    return False
+
+
 def _returned(f, c):
     web = status_web(f)
     return c.id in web
@@ -424,14 +443,28 @@ def rule_format(rep, m):
     if enc is None or dec is None:
         raise repo.AnalysisBroken("encrypt_file / decrypt_file not found in asconcrypt")
 
-    def header_alloca(f):
-        for i in f.insts():
-            if i.op == "alloca" and f.var_names.get(i.id) == "header":
-                return i.id
+    def header_alloca(f, io):
+        """the stack object whose start is handed to the first write (encrypt) / read (decrypt) of the file:
+        the header, wherever it lives (its own array, or the first member of a larger record)"""
+        R = ptr.resolver(f)
+        calls = [c for c in f.calls(io)]
+        first = None
+        for c in calls:
+            if all(f.dominates(c, o) or c is o for o in calls):
+                first = c
+        if first is None and calls:
+            first = sorted(calls, key=lambda c: (c.block.name != f.blocks[0].name, c.idx))[0]
+        if first is None:
+            return None
+        pv = R.resolve(first.ops[1]) if len(first.ops) > 1 else None
+        root = pv.single() if pv is not None else None
+        if root and root[0] == "alloca" and pv.offset == 0:
+            return root[1]
         return None
-    he, hd = header_alloca(enc), header_alloca(dec)
+    he, hd = header_alloca(enc, "safe_file_write"), header_alloca(dec, "safe_file_read")
     if he is None or hd is None:
-        raise repo.AnalysisBroken("C19.D4: no local named 'header' in encrypt_file / decrypt_file")
+        rep.unproved_item(rid, "the object written first by encrypt_file / read first by decrypt_file is not a local of the function")
+        return
     # writer image: constant bytes stored into the header
     Re = ptr.resolver(enc)
     wimg = {}
@@ -479,7 +512,8 @@ def rule_format(rep, m):
                 if pv.single() == ("alloca", hd) and pv.offset is not None and not pv.variable:
                     rimg[pv.offset] = c & 0xff
     if len(rimg) < 12:
-        rep.broken.append("%s: the reader checks only %d header byte(s)" % (rid, len(rimg)))
+        rep.unproved_item(rid, "only %d constant header byte(s) of the reader recognised in this shape" % len(rimg))
+        return
     bad = [k for k in sorted(rimg) if wimg.get(k) != rimg[k]]
     if bad:
         rep.violation(rid, "header-constants", dec.src,
